@@ -7,7 +7,8 @@ P = {
     "claimed": True,
     "coq_targets": ["Properties/C02.vo", "Run/Eval_C02.vo"],
     "theorems_module": "Properties.C02",
-    "theorems": ["C02_find_is_most_specific", "C02_tree_refines_machine", "C02_tree_find_is_most_specific",
+    "theorems": ["C02_find_is_most_specific", "C02_tree_refines_machine", "C02_tree_add_refines_machine",
+                 "C02_tree_find_is_most_specific",
                  "C02_pinned_find_is_most_specific", "C02_pinned_tree_find_is_most_specific", "C02_F1_pinned_refuted",
                  "C02_nonvacuous", "C02_order_independent", "C02_answer_is_first_acceptable", "C02_most_specific_wins",
                  "C02_no_backtracking_stops", "C02_backtracking_continues", "C02_match_decides_matches",
@@ -36,29 +37,31 @@ P = {
     "anchors": ["internal/x/radixtree/tree.go", "internal/x/radixtree/options.go", "internal/rules/repository_impl.go",
                 "internal/rules/rule_impl.go", "internal/rules/route_matcher.go"],
     "trusted": [
-        "stage 2 is proved for lookups only: findNode of the compressed tree (Radix/Tree.v) on any tree satisfying the shape invariant wfb "
-        "is the machine's search on abs(tree) (theorem C02_tree_refines_machine); that addNode/splitCommonPrefix preserve wfb and that "
-        "abs of the tree built equals the machine's index is CHECKED on every generated case (tree_ok in Run/Eval_C02.v), not proved; "
-        "static-child priorities (order only) and Delete/node merging are not modelled here",
-        "conditions are data: matchers that do not look at key names/captures (scheme, method, host); path_params conditions and the "
-        "captures handed out are C03's observables and are not compared here",
+        "the Gallina transcription of tree.go (Radix/Tree.v: addNode, splitCommonPrefix, Add, findNode, Find) is tied to the Go code by "
+        "the correspondence runs only; static-child priorities (order of children) are omitted; Delete/deleteChild and Clone are not "
+        "modelled here (C06/C07)",
+        "a failed real Add leaves value-less nodes behind (and may overwrite key names before the constraint refuses); the model returns "
+        "the tree unchanged - invisible to lookups by id for constraints that never refuse a value on an empty node (heimdall's does not)",
+        "conditions are data in the runs (matchers that do not look at key names/captures: scheme, method, host); the theorems hold for "
+        "all matchers; path_params conditions and the captures handed out are C03's observables and are not compared here",
         "every Add carries WithBacktracking (as repository.addRulesTo does); an expression's flag is that of its last accepted Add",
     ],
-    "level_text": "Proof (kernel-checked, no axioms): for every sequence of Adds (any expressions, insertion order, flags, values "
-                  "constraint), every path and every condition, the depth-first search of the index model returns exactly what the "
-                  "declarative specification says (scan of the matching expressions by specificity, first acceptable value in insertion "
-                  "order, continue only if the failed expression allows backtracking), unguarded since fix e897fef (the pinned behaviour "
-                  "C02-F1 is kept as guarded theorem + refutation witness); findNode of the compressed tree refines that search on every "
-                  "well-formed tree; lookups are independent of how Adds of different expressions are interleaved; wildcards are non-empty, escapes are literals, "
-                  "default rule / no rule at repository level. The model is tied to radixtree.Tree and rules.repository by running both "
-                  "on ~1000 generated indexes / ~16000 lookups per quick run (25000 / 400000 thorough) and comparing every Add result and "
-                  "every returned value / rule id, against the machine (correspondence) and against the specification (property).",
-    "level_note": "Stage 1 (pattern-map machine = specification, load invariants, order independence) is proved for all inputs; stage 2 is "
-                  "proved for findNode (compressed tree refines the machine on every well-formed tree) while Add's preservation of the tree "
-                  "invariant / abstraction is validated per generated case, and Delete is not modelled. Trusted: Coq kernel/vm_compute, the Go "
-                  "drivers and generators (harness/c02), rendering into Gallina. Conditions are data (capture-independent matchers); "
-                  "captures/keys are C03's. Finding C02-F1 (free-wildcard failure consulted the parent node's flag) was repaired by "
-                  "fix: commit e897fef; its witness stays in the corpus, so a regression is an ordinary VIOLATION.",
+    "level_text": "Proof (kernel-checked, no axioms), both stages of DESIGN 6/C02: for every sequence of Adds (any expressions, insertion "
+                  "order, flags, values constraint), every path and every condition (captures included) the transcribed compressed radix tree "
+                  "of tree.go (addNode with prefix splitting, findNode with static/wildcard/catch-all children and backtrack flags) returns "
+                  "exactly what the declarative specification says: scan of the matching expressions by specificity (literal < single wildcard "
+                  "< free wildcard, position by position), first acceptable value in insertion order, continue only if the failed expression "
+                  "allows backtracking (C02_tree_find_is_most_specific, via the pattern-map machine: Add refines the machine's add, findNode "
+                  "refines its search on every well-formed tree); lookups are independent of how Adds of different expressions are interleaved; "
+                  "wildcards are non-empty, escapes are literals; default rule / no rule at repository level. The pinned behaviour C02-F1 "
+                  "(fixed by e897fef) is kept as guarded theorem + refutation witness. The model is tied to radixtree.Tree and rules.repository "
+                  "by running both on ~1000 generated indexes / ~16000 lookups per quick run (25000 / 400000 thorough) and comparing every Add "
+                  "result and every returned value / rule id with the tree model, the machine and the specification.",
+    "level_note": "Trusted: Coq kernel/vm_compute; the hand transcription of tree.go and repository_impl.go into Gallina (checked differentially "
+                  "on every run, not verified); the Go drivers and generators (harness/c02) and the rendering into Gallina. Not modelled: "
+                  "static-child priorities (order only), Delete/Clone (C06/C07), garbage nodes of failed Adds. Conditions are data in the runs "
+                  "(capture-independent matchers); captures/keys are C03's observables. Finding C02-F1 was repaired by fix: commit e897fef; "
+                  "its witness stays in the corpus, so a regression is an ordinary VIOLATION (checked by reverting the commit in a scratch worktree).",
     "assumptions": ["lookups never mutate the tree; the drivers use one goroutine",
                     "the repository driver builds ruleImpl/routeImpl values directly (in-package); a rename of their fields breaks the driver, not the property"],
 }
